@@ -178,6 +178,10 @@ def run_world(w: World, only=None):
             install_hook(mi)
         if w.clones and s.rt.owner_ids is None and getattr(s.rt, "sm", None) is not None and i > 0:
             s.rt.owner_ids = {id(s.rt.sm), id(s.rt.model)} | {id(x) for x in s.listeners.values()}
+        s.foreign_from = None
+        if nested and active:
+            host = sessions[active[-1]]
+            s.foreign_from = getattr(host.rt, "sm", None)
         enter(mi)
         try:
             if w.loop and not nested:
